@@ -269,6 +269,16 @@ fn analysis_items() -> Vec<Item> {
         spec.exception = Some(ExcSpec { tid: 1, has_ctx: true, ctx_ok: true, ctx_ip: 0x400150, ctx_sp: 0x10008, code: 0xC000_0005, flags: 0, address: 0x400150, nparams: 2, info, ctx_patch: vec![(144usize, 0)] });
         v.push(Item { name: format!("analysis-null-plus-offset-{}", k), cpu: "amd64".into(), dump: build(&spec), symbols: HashMap::new(), corrupted: false });
     }
+    // (1g) symbol files whose INLINE records point at things that were never declared (origin id, call-site file id), with the
+    //      context frame inside the inlined range
+    for (k, inl) in ["INLINE 0 7 1 9 120 8\n", "INLINE 0 7 9 0 120 8\nINLINE 1 8 9 9 120 4\n", "INLINE 0 7 1 0 120 8\nINLINE 1 8 1 9 120 8\nINLINE 2 9 1 0 120 8\n"].into_iter().enumerate() {
+        let mut spec = DumpSpec { os: "linux".into(), cpu: "amd64".into(), ..DumpSpec::default() };
+        spec.threads.push(ThreadSpec { id: 1, ctx_ok: true, name: None, ip: 0x400122, sp: 0x10008, stack_base: 0x10000, stack: vec![0u8; 64] });
+        spec.modules = vec![ModuleSpec { base: 0x400000, size: 0x1000, name: "m1".into() }];
+        let mut symbols = HashMap::new();
+        symbols.insert("m1".to_string(), format!("MODULE Linux x86_64 000 m1\nFILE 1 a.c\nINLINE_ORIGIN 0 inlined\nFUNC 100 100 0 outer\n{}100 40 11 1\n", inl));
+        v.push(Item { name: format!("analysis-inline-undeclared-{}", k), cpu: "amd64".into(), dump: build(&spec), symbols, corrupted: false });
+    }
     // (1b) the dump header has no time stamp (zeroed here) but the process start time is known: anything
     //      derived from "the time of the crash" must come from the dump, not from the clock.  The name asks the determinism
     //      recorder to let a second pass before the last run.
